@@ -283,7 +283,8 @@ pub mod implementations {
                 bail!("vec_op +push operations require only a single item on the operating stack")
             }
 
-            let new_val = ctx.pop().unwrap();
+            // elements are values: an element pointer (`[a[0], 7]`) must not keep aliasing `a`
+            let new_val = ctx.pop().unwrap().move_out_of_heap_primitive()?;
 
             let primitive_with_flags: PrimitiveFlagsPair = ctx
                 .load_local(&op_name[1..])
